@@ -66,6 +66,11 @@ CHECKS = {
          "Generated search over valid INI files (entries resolved and accepted by the reference semantics) with noise inserted (blank lines, both comment styles, 70 kB comment lines, blanks around names/=/values/headers, CRLF): the option fields after the noisy file must equal those after the clean file; with exactly one faulty line at a random position the error must be an *IniError carrying that line's 1-based number (ErrUnknownGroup for a section), and under IgnoreUnknown unknown keys/sections are skipped while everything else is applied. Thorough adds a 90 s 16-core fuzz campaign over arbitrary bytes (no panic, error type *IniError or *flags.Error).",
          "validity of the generated clean file is decided by the reference INI resolution (harness/props/iniref.go); faults are constructed so that exactly one line is wrong; arbitrarily long lines are exercised up to ~70 kB",
          "DESIGN.md §4 C14"),
+ "C15": ("exploration",
+         "property-based testing (rapid): each generated scenario is evaluated 40 times on fresh builds (Go randomises every map range) and all outputs must be byte-identical; thorough adds a two-process digest comparison",
+         "Generated search over scenarios where order can leak (multi-entry maps rendered in help, the same option set from several INI sections, simultaneous faults, required/command lists, completion lists). Help, man page, INI output, error type+message, remaining args, all option values, INI error/values and completion items are compared across 40 evaluations per scenario within a process, and (thorough) across two processes for 300 scenarios.",
+         "iteration orders are sampled by the runtime's own randomisation, not enumerated: an order dependence on a 2-entry map is missed by 40 repetitions with probability about 0.5% per scenario; SOURCE_DATE_EPOCH is pinned for the man page; terminal width pinned to 100",
+         "DESIGN.md §4 C15"),
  "C17": ("exploration",
          "property-based testing (rapid): structural layout predicates over help rendered at generated terminal widths through a real pseudo-terminal",
          "Generated search over names in five scripts, descriptions with long words/newlines/blank paragraphs, nesting and terminal widths 1..400 (real pty on fd 0); the rendered help must not panic, be valid UTF-8, start all descriptions in one column (characters), indent continuation lines to it, conserve the words in order, and respect the width when >= 10 columns remain.",
